@@ -375,7 +375,7 @@ def run(ctx):
                     cases.append({"cmd": cmd, "vec": vec, "labels": labels, "dev": r_})
     # computed-intermediate corner (vf/corners.py): accounts whose extended PRIVATE key text contains a field name of the schema
     from .. import corners
-    kept, st = corners.cover(((a, _acct_text_feats(a)) for a in range(ctx.seed * 5000, 10**7)), {}, 200000, positions=False, firstlast=False, pairs=False,
+    kept, st = corners.cover(((a, _acct_text_feats(a)) for a in range((ctx.seed * 5000) % (2**31 - 10**7), 2**31 - 1)), {}, 200000, positions=False, firstlast=False, pairs=False,
                              extra=[corners.contains_words(["x44", "x49", "x84"], ["pub", "prv"])])
     ctx.extra["intermediate_corner_classes_schema_words"] = st
     if st["covered"] != st["classes"]:
